@@ -14,7 +14,8 @@ THEOREMS = ['Dlis.C11.sources_agree', 'Dlis.C11.lookup_skip', 'Dlis.C11.lookup_s
 
 
 def sliced(spec, lo, hi):
-    """the same specification with every channel's data pre-sliced to rows [lo, hi)"""
+    """the same specification with every channel's data pre-sliced to rows [lo, hi), held as plain native arrays (the
+    reference does not depend on how a source stores its numbers)"""
     s2 = dict(spec)
     s2['lfs'] = []
     for lf in spec['lfs']:
@@ -24,6 +25,7 @@ def sliced(spec, lo, hi):
             o2 = dict(o)
             if o['kind'] == 'channel':
                 o2['data'] = o['data'][lo:hi].copy()
+                o2['layout'] = 'plain'
             l2['objects'].append(o2)
         s2['lfs'].append(l2)
     s2['write'] = dict(spec['write'], from_idx=0, to_idx=None)
